@@ -319,6 +319,7 @@ def run(ctx, col, tier):
     col.guard(rows_rule, ctx, col)
     col.guard(anchored, ctx, col)
     col.guard(recognisers, ctx, col)
+    col.guard(mapping, ctx, col)
 
 
 def _expand(d, e, depth=3):
@@ -550,3 +551,14 @@ def _run_get_idx(ctx, gx, k, n):
     if r[0] == "raise":
         return IndexError if r[1] == "IndexError" else r[1]
     return r[1]
+
+
+def mapping(ctx, col):
+    """PopulationTransform: one result per tree, in order."""
+    d = ctx.repo.get_def("swcgeom.transforms.population.PopulationTransform.__call__")
+    col.text_group("R-ROWS", d.qualname, d, [
+        ("the results are collected in a fresh list", ["trees = []"], "map:init"),
+        ("every tree of the population, in order, is transformed and its result appended",
+         ["for t in population:\n    new_t = self.transform(t)\n    if new_t.source == '':\n        new_t.source = t.source\n    trees.append(new_t)"], "map:loop"),
+        ("the results form the new population, same root", ["return Population(trees, root=population.root)"], "map:ret")],
+        fixed=("population", "Population"))
